@@ -53,6 +53,9 @@ CHECKS = {
  "C19": ("fault_enumeration", "exhaustive single-fault enumeration (every truncation length, every single-bit flip) of real .skf files through the real loader and CLI",
          "Every one of the len + 8*len damaged images of six files (64/128-bit, one or several samples, one or several snappy frames, stored-uncompressed chunks, files written by delete) is loaded exactly as main does; each must be rejected or decode to the original content. The space is finite and enumerated completely.",
          "One fault per image; subject files are produced once per run by the real save so that all shards damage the same bytes.", "DESIGN.md §5 C19"),
+ "C20": ("exploration", "bounded exhaustive enumeration: designed multiplicity histograms (boundary 49/50/51, empty buckets) through the real counter and CLI vs model multiplicities; parameter grid x every table length for the cutoff rule; unit-histogram basis x parameter grid for the likelihood/gradient identity",
+         "Counting is decided per distinct k-mer against the model on read sets whose histogram is constructed to sit exactly on the truncation boundary; the cutoff rule is a function of (w0, c, length) enumerated on a grid against an independent closed form; likelihood and gradient are linear in the histogram, so checking every unit histogram on the parameter grid (plus composites) decides the identity on the grid. This is the weakest fit of the family (a numeric identity decided on a grid and a basis).",
+         "Needs the verif-hooks feature (private likelihood functions, fitted state). Off-grid parameters are not covered.", "DESIGN.md §5 C20"),
 }
 IMPLEMENTED = set(CHECKS)
 ALL = ["C%02d" % i for i in range(1, 21)]
